@@ -165,15 +165,20 @@ structure grm_RwI (s : Sge.Reward.State) : Prop where
   statPos : ∀ x ∈ s.stats, 0 < x.n
   statCap : grm_StatCap s.campaigns s.stats
 
-/-- the by-category index entry of a reward is filed under the promoter uid that the promoter-by-address store has
-    for the promoter address of the reward's campaign (conjunct 7 of `rewardInv` on the model state) -/
-def grm_CatOKL (cs : List Sge.Reward.Campaign) (ba : List (Nat × Nat)) (rs : List Sge.Reward.Reward)
+/-- every by-category index entry belongs to a stored reward whose campaign is stored and whose campaign's promoter
+    address has a promoter-by-address record; `P` relates the promoter uid of that record to the uid the entry is filed
+    under -/
+def grm_CatOKL (P : Nat → Nat → Prop) (cs : List Sge.Reward.Campaign) (ba : List (Nat × Nat)) (rs : List Sge.Reward.Reward)
     (bc : List Sge.Reward.CatIdx) : Prop :=
   ∀ y ∈ bc, ∃ r ∈ rs, r.uid = y.uid ∧ ∃ c, Sge.Reward.getC cs r.campaign = some c ∧
-    ∃ pa, Sge.Reward.getA ba c.promoter = some pa ∧ pa.2 = y.promoter
+    ∃ pa, Sge.Reward.getA ba c.promoter = some pa ∧ P pa.2 y.promoter
 
-def grm_CatOK (s : Sge.Reward.State) : Prop := grm_CatOKL s.campaigns s.byAddr s.rewards s.byCat
+/-- the by-category index entry of a reward is filed under the promoter uid that the promoter-by-address store has
+    for the promoter address of the reward's campaign (conjunct 7 of `rewardInv` on the model state) -/
+def grm_CatOK (s : Sge.Reward.State) : Prop := grm_CatOKL Eq s.campaigns s.byAddr s.rewards s.byCat
 
+/-- … under some promoter uid (the lookups of the genesis import succeed) -/
+def grm_CatSome (s : Sge.Reward.State) : Prop := grm_CatOKL (fun _ _ => True) s.campaigns s.byAddr s.rewards s.byCat
 
 theorem grm_setBy_keys {α : Type} (key : α → Nat) (xs : List α) (v : α) (h : xs.Pairwise (fun a b => key a ≠ key b)) :
     (setBy key xs v).Pairwise (fun a b => key a ≠ key b) := by
@@ -366,9 +371,9 @@ def grm_freshRun : State → List Op → Bool
   | _, [] => true
   | s, op :: rest => grm_freshOp s op && grm_freshRun (step s op) rest
 
-theorem grm_catOKL_setC {cs : List Campaign} {ba : List (Nat × Nat)} {rs : List Reward} {bc : List CatIdx} {c c' : Campaign}
-    (h : grm_CatOKL cs ba rs bc) (hget : getC cs c.uid = some c) (hu : c'.uid = c.uid) (hp : c'.promoter = c.promoter) :
-    grm_CatOKL (setC cs c') ba rs bc := by
+theorem grm_catOKL_setC {P : Nat → Nat → Prop} {cs : List Campaign} {ba : List (Nat × Nat)} {rs : List Reward} {bc : List CatIdx} {c c' : Campaign}
+    (h : grm_CatOKL P cs ba rs bc) (hget : getC cs c.uid = some c) (hu : c'.uid = c.uid) (hp : c'.promoter = c.promoter) :
+    grm_CatOKL P (setC cs c') ba rs bc := by
   intro y hy
   obtain ⟨r, hr, hru, c0, hc0, pa, hpa, hpp⟩ := h y hy
   refine ⟨r, hr, hru, ?_⟩
@@ -380,8 +385,8 @@ theorem grm_catOKL_setC {cs : List Campaign} {ba : List (Nat × Nat)} {rs : List
     exact ⟨c', rfl, pa, by rw [hp]; exact hpa, hpp⟩
   · exact ⟨c0, hc0, pa, hpa, hpp⟩
 
-theorem grm_catOKL_setC_new {cs : List Campaign} {ba : List (Nat × Nat)} {rs : List Reward} {bc : List CatIdx} {c' : Campaign}
-    (h : grm_CatOKL cs ba rs bc) (hget : getC cs c'.uid = none) : grm_CatOKL (setC cs c') ba rs bc := by
+theorem grm_catOKL_setC_new {P : Nat → Nat → Prop} {cs : List Campaign} {ba : List (Nat × Nat)} {rs : List Reward} {bc : List CatIdx} {c' : Campaign}
+    (h : grm_CatOKL P cs ba rs bc) (hget : getC cs c'.uid = none) : grm_CatOKL P (setC cs c') ba rs bc := by
   intro y hy
   obtain ⟨r, hr, hru, c0, hc0, pa, hpa, hpp⟩ := h y hy
   refine ⟨r, hr, hru, ?_⟩
@@ -392,32 +397,36 @@ theorem grm_catOKL_setC_new {cs : List Campaign} {ba : List (Nat × Nat)} {rs : 
     cases hc0
   · exact ⟨c0, hc0, pa, hpa, hpp⟩
 
-theorem grm_catOKL_setA {cs : List Campaign} {ba : List (Nat × Nat)} {rs : List Reward} {bc : List CatIdx} {v : Nat × Nat}
-    (h : grm_CatOKL cs ba rs bc) (hfresh : getA ba v.1 = none) : grm_CatOKL cs (setA ba v) rs bc := by
+theorem grm_catOKL_setA {P : Nat → Nat → Prop} {cs : List Campaign} {ba : List (Nat × Nat)} {rs : List Reward} {bc : List CatIdx} {v : Nat × Nat}
+    (h : grm_CatOKL P cs ba rs bc) (hfresh : getA ba v.1 = none ∨ ∀ a b, P a b) : grm_CatOKL P cs (setA ba v) rs bc := by
   intro y hy
   obtain ⟨r, hr, hru, c0, hc0, pa, hpa, hpp⟩ := h y hy
-  refine ⟨r, hr, hru, c0, hc0, pa, ?_, hpp⟩
+  refine ⟨r, hr, hru, c0, hc0, ?_⟩
   unfold getA setA at *
   rw [getBy_setBy]
   split
   · rename_i e
-    rw [e, hfresh] at hpa
-    cases hpa
-  · exact hpa
+    rcases hfresh with hfresh | hall
+    · rw [e, hfresh] at hpa
+      cases hpa
+    · exact ⟨v, rfl, hall _ _⟩
+  · exact ⟨pa, hpa, hpp⟩
 
-theorem grm_catOK_exec {s s' : State} {op : Op} (hC : grm_CatOK s) (hf : grm_freshOp s op = true)
-    (h : exec s op = .ok s') : grm_CatOK s' := by
-  unfold grm_CatOK at *
+theorem grm_catOKL_exec {P : Nat → Nat → Prop} (hrefl : ∀ a, P a a) {s s' : State} {op : Op}
+    (hC : grm_CatOKL P s.campaigns s.byAddr s.rewards s.byCat) (hf : grm_freshOp s op = true ∨ ∀ a b, P a b)
+    (h : exec s op = .ok s') : grm_CatOKL P s'.campaigns s'.byAddr s'.rewards s'.byCat := by
   cases op with
   | time t =>
     simp only [exec, Except.ok.injEq] at h; subst h
     exact hC
   | createPromoter m =>
     obtain ⟨_, _, rfl⟩ := createPromoter_ok h
-    have hn : getA s.byAddr m.creator = none := by
+    refine grm_catOKL_setA hC ?_
+    rcases hf with hf | hall
+    · left
       simp only [grm_freshOp, Option.isNone_iff_eq_none] at hf
       exact hf
-    exact grm_catOKL_setA hC hn
+    · exact Or.inr hall
   | setConf m =>
     obtain ⟨p, _, _, _, rfl⟩ := setPromoterConf_ok h
     exact hC
@@ -443,7 +452,7 @@ theorem grm_catOK_exec {s s' : State} {op : Op} (hC : grm_CatOK s) (hf : grm_fre
     have hget' : getC s.campaigns c.uid = some c := by rw [hu]; exact hget
     have hpu : p.uid = pa.2 := getBy_key _ _ _ _ hp
     -- the old entries: the reward list grows, the campaign keeps its promoter
-    have h1 : grm_CatOKL s.campaigns s.byAddr
+    have h1 : grm_CatOKL P s.campaigns s.byAddr
         (s.rewards ++ [{ uid := m.uid, creator := m.creator, receiver := m.receiver, campaign := m.campaign, amt := r.2 }])
         (s.byCat ++ [{ promoter := caps.2, addr := m.receiver, category := c.category, uid := m.uid }]) := by
       intro y hy
@@ -453,8 +462,9 @@ theorem grm_catOK_exec {s s' : State} {op : Op} (hC : grm_CatOK s) (hf : grm_fre
       · simp only [List.mem_singleton] at hy
         subst hy
         refine ⟨_, List.mem_append_right _ List.mem_cons_self, rfl, c, hget, pa, hpa, ?_⟩
-        show pa.2 = caps.2
+        show P pa.2 caps.2
         rw [hc2, hpu]
+        exact hrefl _
     exact grm_catOKL_setC h1 hget' rfl rfl
   | authzGrant a b k l e =>
     obtain ⟨_, _, rfl⟩ := authzGrant_ok h
@@ -471,6 +481,23 @@ theorem grm_catOK_exec {s s' : State} {op : Op} (hC : grm_CatOK s) (hf : grm_fre
   | bankSend f t a =>
     obtain ⟨b, _, _, _, rfl⟩ := bankSend_ok h
     exact hC
+
+theorem grm_catOK_exec {s s' : State} {op : Op} (hC : grm_CatOK s) (hf : grm_freshOp s op = true)
+    (h : exec s op = .ok s') : grm_CatOK s' :=
+  grm_catOKL_exec (fun _ => rfl) hC (Or.inl hf) h
+
+theorem grm_catSome_exec {s s' : State} {op : Op} (hC : grm_CatSome s) (h : exec s op = .ok s') : grm_CatSome s' :=
+  grm_catOKL_exec (fun _ => trivial) hC (Or.inr (fun _ _ => trivial)) h
+
+theorem grm_catSome_step {s : State} (op : Op) (hC : grm_CatSome s) : grm_CatSome (step s op) := by
+  rcases step_eq s op with ⟨s', h, e⟩ | e
+  · rw [e]; exact grm_catSome_exec hC h
+  · rw [e]; exact hC
+
+theorem grm_catSome_run {s : State} (ops : List Op) (hC : grm_CatSome s) : grm_CatSome (run s ops) := by
+  induction ops generalizing s with
+  | nil => exact hC
+  | cons op rest ih => exact ih (grm_catSome_step op hC)
 
 theorem grm_catOK_step {s : State} (op : Op) (hC : grm_CatOK s) (hf : grm_freshOp s op = true) : grm_CatOK (step s op) := by
   rcases step_eq s op with ⟨s', h, e⟩ | e
